@@ -1,5 +1,6 @@
 import codecs
 import os
+import re
 
 from prophyc import model
 
@@ -97,7 +98,9 @@ class TranslatorBase(TranslatorAbc):
     @classmethod
     def _block_post_process(cls, content, base_name, nodes):
         if cls.block_template:
-            return cls.block_template.format(content=content, base_name=base_name, nodes=nodes)
+            """ guard_name: the file name as an identifier (for preprocessor macros) """
+            return cls.block_template.format(content=content, base_name=base_name, nodes=nodes,
+                                             guard_name=re.sub(r"\W", "_", base_name))
         else:
             return content
 
